@@ -105,6 +105,14 @@ func c03Run(w *simrt.World, tier string) {
 			gotID = sc.GetClientID()
 		}
 		wantAuth := cc.authedAs != 0
+		if wantAuth && !gotAuth && what != "first-connect" && what != "phase2-correct" {
+			// the server dropped this connection's authentication in the meantime (e.g. the same client
+			// logged in on another connection and this one was evicted): losing authentication is never
+			// a violation of this property; only the message that proves an identity must be honoured
+			cc.authedAs = 0
+			wantAuth = false
+			w.Probe("evicted-by-duplicate-login")
+		}
 		if gotAuth != wantAuth || (wantAuth && gotID != cc.authedAs) {
 			cls := "authenticated-without-proof"
 			if wantAuth && !gotAuth {
